@@ -23,6 +23,7 @@ import ast
 import re
 from collections import Counter
 
+from ..astutil import first_stmt, last_stmt  # noqa: F401
 from ..astutil import (MUTATING_METHODS, ancestors, call_name, calls_in, guards_of, norm,
                        single_def_value, stmt_of, stores_to, walk_no_nested)
 from ..cfg import CFG
@@ -152,7 +153,7 @@ def rule_unpack(ctx):
                 for t in g.nodes:
                     if t.kind == 'test' and isinstance(t.stmt, ast.If) and norm(t.stmt.test) in (
                             f'not {xs}', f'len({xs}) == 0', f'{xs} == []', f'not len({xs})') \
-                            and t.stmt.body and isinstance(t.stmt.body[-1], (ast.Return, ast.Raise)):
+                            and isinstance(last_stmt(t.stmt.body), (ast.Return, ast.Raise)):
                         if un and t.id in dom[un[0]]:
                             guard = t
                     if t.kind == 'test' and isinstance(t.stmt, ast.If) and norm(t.stmt.test) in (xs, f'len({xs}) > 0') \
@@ -452,7 +453,7 @@ def rule_columns(ctx):
     ctx.ob('C14-R6', qs, 'every-nth-day anchored at the start day (or first day in the data)', ok,
            '(day − anchor) % n = 0' if ok else 'every-nth-day selection changed')
     # guard of the every_nth block
-    blk = [n for n in walk_no_nested(qs.node) if isinstance(n, ast.If) and 'every_nth' in norm(n.test) and 'raise' not in norm(n.body[0])]
+    blk = [n for n in walk_no_nested(qs.node) if isinstance(n, ast.If) and 'every_nth' in norm(n.test) and not isinstance(first_stmt(n.body), ast.Raise)]
     ok = bool(blk) and norm(blk[0].test) == 'self.every_nth is not None and self.every_nth > 1'
     ctx.ob('C14-R6', qs, 'every_nth applied when > 1', ok, norm(blk[0].test) if ok else 'every_nth guard changed', nontrivial=False)
     # sampling
